@@ -173,7 +173,14 @@ func c04Check(env *core.Env, cc core.Case) core.Verdict {
 	case "<dir>":
 		_ = os.MkdirAll(filepath.Join(root, "regex-assembly", cfgFile), 0o755)
 	default:
-		if err := (sut.Tree{"regex-assembly/" + cfgFile: c.CfgYAML}).Write(root); err != nil {
+		t := sut.Tree{"regex-assembly/" + cfgFile: c.CfgYAML}
+		switch c.Seed % 7 {
+		case 1: // the configuration is a symbolic link (relative / absolute) to a file kept elsewhere
+			t = sut.Tree{"shared/toolchain-real.yaml": c.CfgYAML, "regex-assembly/" + cfgFile: sut.SymlinkPrefix + "../shared/toolchain-real.yaml"}
+		case 2:
+			t = sut.Tree{"shared/toolchain-real.yaml": c.CfgYAML, "regex-assembly/" + cfgFile: sut.SymlinkPrefix + filepath.Join(root, "shared/toolchain-real.yaml")}
+		}
+		if err := t.Write(root); err != nil {
 			return core.Incon("cannot write configuration: %v", err)
 		}
 	}
@@ -419,7 +426,7 @@ func c04Gen(r *rand.Rand) *c04Case {
 	}
 	marker := evasionCfg{Unix: "_eu_", Windows: "_ew_", SuffixUnix: "_su_", SuffixWindows: "_sw_", NoSpUnix: "_nu_", NoSpWindows: "_nw_"}
 	star := evasionCfg{Unix: `[\x5c'\"]*`, Windows: `[\"\^]*`, SuffixUnix: `(?:\s|<|>).*`, SuffixWindows: `(?:[\s,;]|\.|/|<|>).*`, NoSpUnix: `(?:<|>).*`, NoSpWindows: `[,;./<>].*`}
-	switch r.Intn(14) {
+	switch r.Intn(15) {
 	case 12:
 		// valid YAML, but one value has the wrong type: the file cannot be used, nothing is inserted
 		c.CfgName, c.Effective, c.Exact = "wrong-type", evasionCfg{}, true
@@ -428,6 +435,10 @@ func c04Gen(r *rand.Rand) *c04Case {
 		// patterns with `$` followed by a name or a digit (text that a replacement template would expand)
 		dollar := evasionCfg{Unix: `(?:\$ifs|\$1|\${x})?`, Windows: `(?:\$0)?`, SuffixUnix: `\$end.*`, SuffixWindows: `\${1}.*`, NoSpUnix: `\$n.*`, NoSpWindows: `\$w.*`}
 		c.CfgName, c.CfgYAML, c.Effective, c.Exact = "dollar-names", dollar.yaml(), dollar, true
+	case 14:
+		// patterns with percent signs (text that a format string would interpret)
+		pct := evasionCfg{Unix: `(?:%s|%d)?`, Windows: `(?:%[a-z]+%)?`, SuffixUnix: `%v.*`, SuffixWindows: `%path%.*`, NoSpUnix: `%5d.*`, NoSpWindows: `%%.*`}
+		c.CfgName, c.CfgYAML, c.Effective, c.Exact = "percent-signs", pct.yaml(), pct, true
 	case 0, 1:
 		c.CfgName, c.CfgYAML, c.Effective, c.Exact = "crs", crsEvasion.yaml(), crsEvasion, true
 	case 2, 3:
@@ -469,7 +480,7 @@ func init() {
 	register(&core.Property{
 		ID:    "C04",
 		Level: "exploration",
-		Rule: "generated cmdline blocks (unix/windows; 1..5 words over letters, digits, '.', '-', '_', space, with @ / ~ / escaped markers and quote lines; bare, beside plain entries, nested in an assemble block between markers, fed through an include) x 14 configurations of toolchain.yaml, a part of them with comments and unknown keys added (the CRS patterns, patterns with `$name` / `$1` text, distinct literal markers per key and OS, starred classes, absent file, empty file, partial keys, invalid YAML, valid YAML with a wrongly typed value, a directory in place of the file, another file selected with -f next to a decoy default, quoted/folded scalars with a grouped alternation) are compiled by the built CLI. " +
+		Rule: "generated cmdline blocks (unix/windows; 1..5 words over letters, digits, '.', '-', '_', space, with @ / ~ / escaped markers and quote lines; bare, beside plain entries, nested in an assemble block between markers, fed through an include) x 15 configurations of toolchain.yaml (two in seven reached through a relative or absolute symbolic link), a part of them with comments and unknown keys added (the CRS patterns, patterns with `$name` / `$1` text, patterns with percent signs, distinct literal markers per key and OS, starred classes, absent file, empty file, partial keys, invalid YAML, valid YAML with a wrongly typed value, a directory in place of the file, another file selected with -f next to a decoy default, quoted/folded scalars with a grouped alternation) are compiled by the built CLI. " +
 			"Oracle (membership): for every word the word itself and up to 14 variants with strings inserted between adjacent characters — drawn by random walks from the configured pattern's syntax tree and validated against the plain reading of that single word with Go's regexp — must be matched by the output under search semantics; @/~ variants carry a sampled member of the configured suffix; in single-word programs the bare word (suffix demanded), the word without its escaped marker, the word without its space and the word with '.'/'-' replaced must not be matched; quote lines pass through. For concatenation-safe patterns the output is also compared exactly with the plain-reading model under the configuration in force. A third of the cases also store the program as 932100.ra and run `regex update`: the stored operand must equal generate's output byte for byte. Non-trivial = >= 3 validated variants.",
 		Cases: func(env *core.Env, rng *rand.Rand) []core.Case {
 			n := env.N(2000, 20000)
